@@ -662,6 +662,31 @@ pub fn record_c05(a: &Args) -> usize {
             }
         }
     }
+    // the same trip through a byte stream: batches of messages written back to back with Frame::write and read again with
+    // Frame::read (a 255-byte chunk followed by short messages, and so on)
+    let mut batch: Vec<Message<'static>> = vec![];
+    for len in [255usize, 0, 254, 1, 255, 255, 16, 128, 250, 253] {
+        batch.push(Message::SendData(Offset(len as u16), Data::try_new(rand_bytes(&mut rng, len)).unwrap()));
+        batch.push(Message::DataChunksSent(ChunkCount(len as u16)));
+        batch.push(Message::ReportState(Address(0xFFFF), j::STATES[len % 13]));
+    }
+    let mut stream: Vec<u8> = vec![];
+    let mut wrote_all = true;
+    for m in &batch {
+        wrote_all &= matches!(catch(|| Frame::from(m.clone()).write(&mut stream)), Ok(Ok(())));
+    }
+    let mut cur = std::io::Cursor::new(stream);
+    for m in &batch {
+        let back = catch(|| Frame::read(&mut cur).map(|f| j::msg(&Message::from(f))));
+        let (bj, eq) = match back {
+            Ok(Ok(b)) => {
+                let eq = b == j::msg(m);
+                (b, eq && wrote_all)
+            }
+            _ => (j::reply(&None), false),
+        };
+        out.emit(json!({"e": "m2w", "msg": j::msg(m), "wire": [], "back": bj, "backeq": eq, "via": "stream"}));
+    }
     // one-byte chunks with every byte value (they collide with no other table entry)
     for b in 0..=255u8 {
         emit(&mut out, Message::SendData(Offset(rng.r#gen()), Data::try_new(vec![b]).unwrap()));
